@@ -608,14 +608,17 @@ class C02(vlib.Driver):
                 break
 
 
-def _pack(xs):
-    """a list of numbers < 2^20 - 1 as one number (see C02/Check.v [unpack])"""
-    out = 0
-    for i, x in enumerate(xs):
-        x = int(x) + 1
-        assert 0 < x < (1 << 20), "value too large for the packed exchange format"
-        out |= x << (20 * i)
-    return str(out)
+def _pack(xs, per=10):
+    """a list of numbers < 2^20 - 1 as a list of numbers holding [per] elements each (see C02/Check.v [unpacks])"""
+    xs = [int(x) + 1 for x in xs]
+    assert all(0 < x < (1 << 20) for x in xs), "value too large for the packed exchange format"
+    out = []
+    for k in range(0, len(xs), per):
+        v = 0
+        for i, x in enumerate(xs[k:k + per]):
+            v |= x << (20 * i)
+        out.append(str(v))
+    return "[" + "; ".join(out) + "]"
 
 
 def _pool_run(case):
